@@ -142,9 +142,9 @@ def classify_mismatch(rec, verdict, mm):
     return None
 
 
-def run_semantic(res, sources, opts=None, count=30, extra_case=None, label="programs", classify_extra=None):
+def run_semantic(res, sources, opts=None, count=30, extra_case=None, label="programs", classify_extra=None, keep_lowered=False):
     """sources: list of program texts (or (text, opts)). Fills `res` (common.Result); returns per-case info."""
-    recs = compile_many(sources, opts)
+    recs = compile_many(sources, opts, keep_lowered=keep_lowered)
     cases = []
     stats = collections.Counter()
     for r in recs:
